@@ -326,11 +326,15 @@ Record cfg := {
   d_cache_failed_events : bool;     (* Event_SERVICE events of failed (reverted) transactions still update the executor cache *)
   d_cache_not_reloaded : bool;      (* the cache is not rebuilt from the ledger at start *)
   d_logout_reject_unpauses : bool;  (* AppchainManager.Manage: a rejected logout unpauses the services whatever status the appchain returns to *)
+  d_manage_reject_only : bool;      (* ServiceManager.Manage runs its not-approved follow-up only when the result string is "reject"
+                                       (not the case in the code as it is) *)
+  d_cache_key : N -> N;             (* the key under which the executor cache holds the record of a service id: the identity in the
+                                       code as it is (exact "chain:service" string) *)
   d_cache_deferred : bool           (* the executor cache takes the records posted by a transaction only at the end of the block
                                        (not the case in the code as it is: applyTx stores them right after the transaction) *)
 }.
-Definition cfg_fixed : cfg := {| d_cache_failed_events := false; d_cache_not_reloaded := false; d_logout_reject_unpauses := false; d_cache_deferred := false |}.
-Definition cfg_faithful : cfg := {| d_cache_failed_events := true; d_cache_not_reloaded := true; d_logout_reject_unpauses := true; d_cache_deferred := false |}.
+Definition cfg_fixed : cfg := {| d_cache_failed_events := false; d_cache_not_reloaded := false; d_logout_reject_unpauses := false; d_manage_reject_only := false; d_cache_key := fun i => i; d_cache_deferred := false |}.
+Definition cfg_faithful : cfg := {| d_cache_failed_events := true; d_cache_not_reloaded := true; d_logout_reject_unpauses := true; d_manage_reject_only := false; d_cache_key := fun i => i; d_cache_deferred := false |}.
 
 (** * Service manager *)
 Definition lock_svc (i : N) (ev : string) (k : prog) : prog := Gov (fun ps => fst (lock_low KSvc i 0 ev ps)) k.
@@ -354,7 +358,7 @@ Definition clear_service (i : N) (cause : N) (k : prog) : prog :=
     end).
 
 (** ServiceManager.Manage, inside Scope i *)
-Definition svc_manage (ev trigger last : string) (i : N) (black : list N) (cause : N) (k : prog) : prog :=
+Definition svc_manage (ro : bool) (ev trigger last : string) (i : N) (black : list N) (cause : N) (k : prog) : prog :=
   SFire trigger last cause
     (if String.eqb trigger Ev_Approve then
        if String.eqb ev Ev_Register then
@@ -369,7 +373,11 @@ Definition svc_manage (ev trigger last : string) (i : N) (black : list N) (cause
        else if String.eqb ev Ev_Logout then clear_service i cause k
        else k
      else
-       if String.eqb ev Ev_Logout then
+       (* governance does not always say "reject" here: when the rejected (or withdrawn) proposal had locked a
+          lower-priority one it passes the RESTORED proposal's event name; the follow-up below runs for every
+          result but "approve".  [ro]: it runs for "reject" only (not the case in the code as it is) *)
+       if ro && negb (String.eqb trigger Ev_Reject) then k
+       else if String.eqb ev Ev_Logout then
          RdSvc i (fun r => match r with
                            | None => Fail
                            | Some x => RdChain (sv_chain x) (fun c => match c with
@@ -387,7 +395,7 @@ Definition unpause_service (i : N) (k : prog) : prog :=
                 | None => k
                 | Some (n, lp) =>
                     Gov (upd_nth n (set_pstatus PS_PROPOSED))
-                        (Scope i (svc_manage Ev_Unpause (p_event lp) "" i [] CAUSE_CASCADE Ret) k)
+                        (Scope i (svc_manage false Ev_Unpause (p_event lp) "" i [] CAUSE_CASCADE Ret) k)
                 end) in
     match r with
     | Some x => if pre_ok KSvc Ev_Unpause (sv_status x) then SFire Ev_Unpause "" CAUSE_CASCADE k' else k'
@@ -591,7 +599,7 @@ Definition role_manage (ev trigger last : string) (r : N) (k : prog) : prog :=
 Definition manage (f : cfg) (p : prop) (trigger : string) (k : prog) : prog :=
   match p_kind p with
   | KChain => chain_manage f (p_event p) trigger (p_last p) (p_obj p) k
-  | KSvc => Scope (p_obj p) (svc_manage (p_event p) trigger (p_last p) (p_obj p) (p_black p) CAUSE_CONCL Ret) k
+  | KSvc => Scope (p_obj p) (svc_manage (d_manage_reject_only f) (p_event p) trigger (p_last p) (p_obj p) (p_black p) CAUSE_CONCL Ret) k
   | KRule => rule_manage (p_event p) trigger (p_last p) (p_chain p) (p_obj p) (p_old p) (p_oldst p) (p_chainst p) k
   | KRole => role_manage (p_event p) trigger (p_last p) (p_obj p) k
   | KNode => Fail
@@ -674,22 +682,22 @@ Definition proof_ok (s : state) (src : N) : bool :=
               end
   end.
 
-Definition ibtp_outcome (s : state) (src dst : N) : outcome :=
-  if negb (proof_ok s src) then OProof else gate (view (cache s) (svcs s)) src dst.
+Definition ibtp_outcome (f : cfg) (s : state) (src dst : N) : outcome :=
+  if negb (proof_ok s src) then OProof else gate (view (d_cache_key f) (cache s) (svcs s)) src dst.
 
 (** one step: the transaction is atomic on the ledger; the executor cache is fed from the posted events *)
 Record result := { r_ok : bool; r_out : N (* outcome code of an interchain request, else 9 *); r_log : list lentry; r_state : state }.
 
 Definition step (f : cfg) (s : state) (o : op) : result :=
   match o with
-  | OIbtp src dst => {| r_ok := true; r_out := outcome_code (ibtp_outcome s src dst); r_log := []; r_state := s |}
+  | OIbtp src dst => {| r_ok := true; r_out := outcome_code (ibtp_outcome f s src dst); r_log := []; r_state := s |}
   | ORestart => {| r_ok := true; r_out := 9; r_log := [];
-                   r_state := set_cache (if d_cache_not_reloaded f then [] else svcs s) s |}
+                   r_state := set_cache (if d_cache_not_reloaded f then [] else rekey (d_cache_key f) (svcs s)) s |}
   | _ =>
       let '(ok, w) := run (prog_of f o) None s in
-      if ok then {| r_ok := true; r_out := 9; r_log := slog w; r_state := clear_tx (set_cache (apply_events (evs w) (cache w)) w) |}
+      if ok then {| r_ok := true; r_out := 9; r_log := slog w; r_state := clear_tx (set_cache (apply_events (d_cache_key f) (evs w) (cache w)) w) |}
       else {| r_ok := false; r_out := 9; r_log := [];
-              r_state := if d_cache_failed_events f then set_cache (apply_events (evs w) (cache s)) s else s |}
+              r_state := if d_cache_failed_events f then set_cache (apply_events (d_cache_key f) (evs w) (cache s)) s else s |}
   end.
 
 Fixpoint run_ops (f : cfg) (s : state) (h : list op) : state :=
@@ -716,7 +724,7 @@ Definition step_at (f : cfg) (s0 : state) (s : state) (o : op) : result :=
   | OIbtp src dst =>
       {| r_ok := true; r_log := []; r_state := s;
          r_out := outcome_code (if negb (proof_ok s0 src) then OProof
-                                else gate (view (if d_cache_deferred f then cache s0 else cache s) (svcs s)) src dst) |}
+                                else gate (view (d_cache_key f) (if d_cache_deferred f then cache s0 else cache s) (svcs s)) src dst) |}
   | _ => step f s o
   end.
 
@@ -916,7 +924,14 @@ Definition model_trace (f : cfg) (h : list op) : list obs := map obs_of (trace f
 Definition model_trace_blocks (f : cfg) (bs : list (list op)) : list obs := map obs_of (trace_blocks f st0 bs).
 
 Definition cfg_of_bits4 (a b c d : bool) : cfg :=
-  {| d_cache_failed_events := a; d_cache_not_reloaded := b; d_logout_reject_unpauses := c; d_cache_deferred := d |}.
+  {| d_cache_failed_events := a; d_cache_not_reloaded := b; d_logout_reject_unpauses := c; d_manage_reject_only := false; d_cache_key := fun i => i; d_cache_deferred := d |}.
+Definition cfg_reject_only : cfg :=
+  {| d_cache_failed_events := false; d_cache_not_reloaded := true; d_logout_reject_unpauses := false; d_manage_reject_only := true;
+     d_cache_key := fun i => i; d_cache_deferred := false |}.
+(** the same flags with the cache keyed by the case-folded id *)
+Definition cfg_folded (g : cfg) : cfg :=
+  {| d_cache_failed_events := d_cache_failed_events g; d_cache_not_reloaded := d_cache_not_reloaded g;
+     d_logout_reject_unpauses := d_logout_reject_unpauses g; d_manage_reject_only := d_manage_reject_only g; d_cache_key := fold_key; d_cache_deferred := d_cache_deferred g |}.
 Definition cfg_of_bits (a b c : bool) : cfg := cfg_of_bits4 a b c false.
 (** the flag sets below [cur], the current one first *)
 Definition sub_cfgs (cur : cfg) : list cfg :=
